@@ -29,6 +29,18 @@ def plan(tier, seed):
     for j in range(len(DERIV_READS_DERIV)):
         specs.append({"klass": "derivative_reads_derivative", "i": k, "text": DERIV_READS_DERIV[j]})
         k += 1
+    from . import c12
+
+    for j, h in enumerate(c12.HAND):
+        # definitions nothing depends on (one of them changes the order in which the derivatives are sorted)
+        specs.append({"klass": "unused_definitions", "i": k, "text": h})
+        k += 1
+    for j in range(12 if tier == "quick" else 120):
+        specs.append({"klass": "unused_definitions", "i": k, "shape": "unused", "fill": j >= 4})
+        k += 1
+    for j in range(len(SINGULAR)):
+        specs.append({"klass": "after_remove_singularities", "i": k, "text": SINGULAR[j][0], "singular": SINGULAR[j][1]})
+        k += 1
     n = 400 if tier == "quick" else 4000
     for j in range(n):
         specs.append({"klass": "random", "i": j, "fill": j >= 8})
@@ -45,6 +57,73 @@ DERIV_READS_DERIV = [
     "parameters(a=3.0, b=0.5)\nstates(x=1.0, y=2.0, z=0.25)\n\ndx_dt = -a * x + z\ndy_dt = 2 * dx_dt + y * b\nu = dy_dt - dx_dt\ndz_dt = u * z + exp(-x)\n",
     "parameters(a=3.0)\nstates(\"A\", x=1.0)\nstates(\"B\", y=2.0)\n\nexpressions(\"B\")\ndy_dt = sin(dx_dt) + y\n\nexpressions(\"A\")\ndx_dt = -a * x + y * y\n",
 ]
+
+
+# (text, {state: singular value}): one removable singularity per expression (several are C16's subject)
+SINGULAR = [
+    ("states(x=0.625, y=-0.375)\n\nw = x / (exp(x) - 1)\ndx_dt = w - x\ndy_dt = -y + w\n", {"x": 0.0}),
+    ("parameters(a=2.0)\nstates(x=0.625)\n\ndx_dt = sin(x - 1.0) / (x - 1.0) * a - x\n", {"x": 1.0}),
+    ("states(\"A\", x=0.625)\nstates(\"B\", y=-0.375)\n\nexpressions(\"R\")\nw = (exp(2 * y) - 1) / y\n\nexpressions(\"A\")\ndx_dt = w - x\n\nexpressions(\"B\")\ndy_dt = -y * 0.5 + x\n", {"y": 0.0}),
+]
+
+
+def singular_case(spec, out, cn):
+    """rhs_matrix of the model returned by remove_singularities (after the original model's cached collections have
+    been used) against the code generated for that same returned model, at regular points and on the singular value."""
+    import numpy as np
+
+    from gotranx import sympytools
+
+    from ..exec.pyexec import PyModule
+
+    text = spec["text"]
+    out["hash"] = models.structural_hash(text) + ":sing"
+    ode = C.load_text(text).value
+    # use the original first: intermediates, state derivatives, the matrices and generated code
+    _ = ode.intermediates, ode.state_derivatives, ode.parameters
+    j0 = C.call(sympytools.jacobi_matrix, ode)
+    c0 = C.py_code(ode)
+    rs = C.call(ode.remove_singularities)
+    out["evaluations"] += 1
+    if not (j0.ok and c0.ok and rs.ok):
+        out.update(status="skipped", reason="original model / remove_singularities fails (C16, C01)")
+        return out
+    new = rs.value
+    rm = C.call(sympytools.rhs_matrix, new)
+    sm = C.call(sympytools.states_matrix, new)
+    oc = C.py_code(new)
+    if not (rm.ok and sm.ok):
+        out["violations"].append({"kind": "rhs_matrix_raises", "detail": {"exc": (rm if not rm.ok else sm).describe()[:200], "after": "remove_singularities"}})
+        return out
+    if not oc.ok:
+        out.update(status="skipped", reason="code for the returned model cannot be generated (C01)")
+        return out
+    mod = PyModule(oc.value)
+    order = [str(s) for s in sm.value]
+    idx = mod.names("state")
+    base = {s.name: float(s.value) for s in new.states}
+    base.update({p.name: float(p.value) for p in new.parameters})
+    pts = [dict(base, t=0.25), dict({k_: v * 1.5 + 0.125 for k_, v in base.items()}, t=1.0), dict(base, t=0.0, **{k_: float(v) for k_, v in spec["singular"].items()})]
+    compared = 0
+    for pt in pts:
+        rec = mod.call("rhs", pt)
+        if rec.exc is not None:
+            continue
+        for i, s_ in enumerate(order):
+            want = float(rec.out[idx[s_]])
+            try:
+                got = float(evalf(rm.value[i], new, pt))
+            except (TypeError, ValueError):
+                got = float("nan")
+            out["evaluations"] += 1
+            if not np.isfinite(want):
+                continue
+            compared += 1
+            if not (abs(got - want) <= 1e-9 * max(1.0, abs(want))):
+                out["violations"].append({"kind": "rhs_matrix_differs_from_generated_code", "detail": {"after": "remove_singularities", "row": s_, "got": got, "generated_rhs": want, "point": pt}})
+    cn["compared"] = compared
+    out["nontrivial"] = compared >= 3
+    return out
 
 
 def chain_model(depth):
@@ -79,8 +158,14 @@ def run_case(spec, ctx):
     rng = C.rng_for(spec)
     out = {"violations": [], "counters": {}, "evaluations": 0, "nontrivial": False, "status": "held"}
     cn = out["counters"]
+    if spec["klass"] == "after_remove_singularities":
+        singular_case(spec, out, cn)
+        return finish(out, spec["text"], spec, None)
     if spec.get("text"):
         text = spec["text"]
+    elif spec.get("shape"):
+        prof = Profile(mod=False, ccond=False, hard_lits=False, funcs=["exp", "sin", "cos", "atan", "sqrt", "log"], max_arity=3)
+        text = models.gen_model(rng, prof, depth=2, shape=spec["shape"], n_states=rng.choice([3, 4, 5]), n_inter=rng.choice([6, 10]), n_params=rng.choice([1, 2])).render(rng)
     elif spec["klass"] == "chain":
         text = chain_model(spec["depth"])
     elif spec["klass"] == "diamond":
